@@ -19,6 +19,10 @@
       overlap_coefficient_join: `validateJoin "OVERLAP_COEFFICIENT" a t = .ok (l, r)` (all of the above, threshold in (0,1]);
   * the tokenizer in set mode returns duplicate-free token lists (`∀ s, (toks true s).Nodup`); no bound on their length;
   * the right table has fewer than 2^40 rows (under which `split_table`'s float arithmetic provably partitions it).
+  * BODY CONDITIONS `BodyOK` (SSJ/Props/Common.lean) in the theorems that CONCLUDE that the call returns a frame: both
+    join columns hold only strings and missing values (a present value of another type makes the tokenizer raise
+    TypeError) and the output header has no column `_id` (else the final `insert(0, '_id', …)` raises ValueError); the
+    theorems about a GIVEN result `… = .ok fr` need no such hypothesis (a returned frame implies both, `C15_body`);
   Everything else is arbitrary: the tables and whatever other rows they contain, the tokenizer function, threshold,
   operator, `allow_empty`, `allow_missing`, output attributes, prefixes, `out_sim_score`, `n_jobs`, the CPU count.
 
@@ -51,7 +55,8 @@ theorem overlap_exact (a : JoinArgs) (t : TokObj) (toks : TokFn) (cpu : Int) (f 
     (hf : mkOverlapFilter a.threshold a.compOp a.allowMissing t = .ok f)
     (hv : validateTablesAttrs a.toTableArgs = .ok (l, r))
     (hk : validateOutAndKeys a.toTableArgs l r = .ok ())
-    (hnd : ∀ s, (toks true s).Nodup) (hlen : r.rows.length < 2 ^ 40) :
+    (hnd : ∀ s, (toks true s).Nodup) (hlen : r.rows.length < 2 ^ 40)
+    (hb : BodyOK a.toTableArgs l r a.outSimScore) :
     ∃ fr, (overlapJoinPy a t toks cpu).result = .ok fr ∧
       (fr.rows.map rowKeys).Nodup ∧
       ∀ ls ∈ l.rows, ∀ rs ∈ r.rows, Present l a.lAttr ls → Present r a.rAttr rs →
@@ -61,7 +66,7 @@ theorem overlap_exact (a : JoinArgs) (t : TokObj) (toks : TokFn) (cpu : Int) (f 
             compFn a.compOp (.int (interCount A B)) a.threshold = true) ∧
         (a.outSimScore = true → ∀ row ∈ fr.rows, rowKeys row = (keyOf l a.lKey ls, keyOf r a.rKey rs) →
             rowScore row = .int (interCount A B)) := by
-  obtain ⟨fr, hfr, hd⟩ := EX.overlapJoinPy_described a t toks cpu f l r hnd hf hv hk hlen
+  obtain ⟨fr, hfr, hd⟩ := EX.overlapJoinPy_described a t toks cpu f l r hnd hf hv hk hlen hb
   obtain ⟨hkl, hkr⟩ := validateOutAndKeys_keys _ l r hk
   obtain ⟨hthr, hop⟩ := EX.mkOverlapFilter_valid _ _ _ _ _ hf
   refine ⟨fr, hfr, hd.once, ?_⟩
@@ -80,7 +85,8 @@ theorem overlap_exact (a : JoinArgs) (t : TokObj) (toks : TokFn) (cpu : Int) (f 
     for an empty-empty pair and the unrounded overlap coefficient otherwise. -/
 theorem ovc_exact (a : JoinArgs) (t : TokObj) (toks : TokFn) (cpu : Int) (l r : Frame)
     (hv : validateJoin "OVERLAP_COEFFICIENT" a t = .ok (l, r))
-    (hnd : ∀ s, (toks true s).Nodup) (hlen : r.rows.length < 2 ^ 40) :
+    (hnd : ∀ s, (toks true s).Nodup) (hlen : r.rows.length < 2 ^ 40)
+    (hb : BodyOK a.toTableArgs l r a.outSimScore) :
     ∃ fr, (overlapCoefficientJoinPy a t toks cpu).result = .ok fr ∧
       (fr.rows.map rowKeys).Nodup ∧
       ∀ ls ∈ l.rows, ∀ rs ∈ r.rows, Present l a.lAttr ls → Present r a.rAttr rs →
@@ -91,7 +97,7 @@ theorem ovc_exact (a : JoinArgs) (t : TokObj) (toks : TokFn) (cpu : Int) (l r : 
              compFn a.compOp (Spec.ovcScore A B) a.threshold = true)) ∧
         (a.outSimScore = true → ∀ row ∈ fr.rows, rowKeys row = (keyOf l a.lKey ls, keyOf r a.rKey rs) →
             rowScore row = if Spec.bothEmpty A B then .flt 1 else scoreCell (Spec.ovcScore A B)) := by
-  obtain ⟨fr, hfr, hd⟩ := EX.overlapCoefficientJoinPy_described a t toks cpu l r hnd hv hlen
+  obtain ⟨fr, hfr, hd⟩ := EX.overlapCoefficientJoinPy_described a t toks cpu l r hnd hv hlen hb
   obtain ⟨hkl, hkr⟩ := validateOutAndKeys_of_validateJoin _ a t l r hv
   obtain ⟨hthr, hop⟩ := EX.ovc_valid_thr_op a t l r hv
   refine ⟨fr, hfr, hd.once, ?_⟩
@@ -193,7 +199,7 @@ example (fr : Frame) (hfr : (overlapJoinPy A {} tk 1).result = .ok fr) :
 /-- `ovc_exact` applies: the empty-empty pair (2, 8) is in the output of the overlap-coefficient join (allow_empty) -/
 example : ∃ fr, (overlapCoefficientJoinPy A {} tk 1).result = .ok fr ∧
     ∃ row ∈ fr.rows, rowKeys row = (.int 2, .int 8) := by
-  obtain ⟨fr, hfr, _, h⟩ := ovc_exact A {} tk 1 L R (by decide) tk_nodup (by decide)
+  obtain ⟨fr, hfr, _, h⟩ := ovc_exact A {} tk 1 L R (by decide) tk_nodup (by decide) (by decide)
   exact ⟨fr, hfr, ((h [.int 2, .str ""] (by decide) [.int 8, .str ""] (by decide) rfl rfl).1).2
     (Or.inl (by decide))⟩
 
